@@ -46,6 +46,7 @@ class SvReifier:
         self.fieldname = fieldname
         self.field_value = field_value
         self.opaque: Dict[Any, int] = {}
+        self.extra_fields: List[str] = []
         self.ct = class_table()
         self.lines: List[str] = []
 
@@ -59,8 +60,14 @@ class SvReifier:
             if self.vterm is not None:
                 self.opaque[id(u)] = mv.int(EV(self.vterm, z3.IntVal(ref)))
             return u
-        if self.kterm is not None and mv.bool(ISFIELDREAD(self.kterm, z3.IntVal(ref))):
+        if self.kterm is not None and self.fieldname and mv.bool(ISFIELDREAD(self.kterm, z3.IntVal(ref))):
             return _mk_field_read(self.key_kind, self.fieldname)
+        if self.kterm is not None:
+            from spec.ghost import ISFIELDREAD_F
+            from spec.avm_axioms import cls_id
+            for fname in self.extra_fields:
+                if mv.bool(ISFIELDREAD_F(self.kterm, z3.IntVal(ref), z3.IntVal(cls_id(fname)))):
+                    return _mk_field_read(self.key_kind, fname)
         iref = mv.fint(ref, "KnownStackValue", "_ins")
         icls = mv.typeof(iref)
         is_pushcls = icls is not None and any(k.__name__ in ("Int", "PushInt", "IntcInstruction") for k in icls.__mro__)
@@ -101,7 +108,7 @@ def to_teal(sv: Any) -> Optional[List[str]]:
     return out
 
 
-def make_reifier(base_keys: List[str], self_cls_name: str, value_of_model: Any = None):
+def make_reifier(base_keys: List[str], self_cls_name: str, value_of_model: Any = None, extra_fields: Any = ()):
     """Reifier for `f(self, key, ins_stack_value)` kernels; tries the base key and the gtxn-type keys."""
 
     def reify(mv: ModelView, ob: Any) -> Iterator[Dict[str, Any]]:
@@ -116,7 +123,8 @@ def make_reifier(base_keys: List[str], self_cls_name: str, value_of_model: Any =
         gidx = max(0, min(gsize - 1, mv.int(GIDX(vt)))) if vt is not None else 0
         modelval = mv.int(KEYFLD(vt, kt)) if (vt is not None and kt is not None) else 0
         if not base_keys:
-            r = SvReifier(mv, None, vt, "", ("self",), "", 0)
+            r = SvReifier(mv, kt if extra_fields else None, vt, "", ("self",), "", 0)
+            r.extra_fields = list(extra_fields)
             tree = r.sv(mv.int(svt))
             visit = NativeVisit(gsize, gidx, [dict() for _ in range(gsize)], opaque=r.opaque)
             I_ = z3.IntSort()
